@@ -38,7 +38,7 @@ def main():
      "engines": [{"name": "check", "path": "/verif/bin/check", "serves_properties": claimed,
                   "kind_free_text": "contract-based deductive verification of the real code: Verus 0.2026.09.13 on function bodies extracted verbatim from /repo on every run (contracts/invariants spliced from /verif/units), Kani 0.68 function-level harnesses on a scratch copy of the real crate"}],
      "checks": [], "not_applicable": [],
-     "notes": "exit 2 = undecided (lost anchor, unsupported construct, timeout): never an alarm. known_findings.json lists recorded findings (C04) and repaired defects (C02, C06, C15, C16).",
+     "notes": "exit 2 = undecided (lost anchor, unsupported construct, timeout): never an alarm. known_findings.json lists recorded findings (C04) and repaired defects (C02, C05, C06, C15, C16).",
     }
     for p in ids:
         if p in props.PROPS:
